@@ -18,3 +18,12 @@ Definition c10_import (text : string) (na : Z) (twopl : bool)
 (* well-formedness of what was imported (used by monitors and non-vacuity statistics) *)
 Definition c10_wf (text : string) (na : Z) (twopl : bool) : bool :=
   match import_model text na twopl with Ok M => wf M | Crash _ => false end.
+
+(* M_import: the implementation's reading of a file written from abstract file A (with any blanks/tabs between
+   tokens) is the instance A denotes (Text/Render.v), whenever A is a well-formed abstract file *)
+From MP Require Import Text.Render.
+Definition c10_spec (na : Z) (twopl : bool) (A : file_ast) (impl : result instance) : bool :=
+  if wf_ast na twopl A
+  then match impl with Ok J => instance_eqb (denote na twopl A) J | Crash _ => false end
+  else true.
+Definition c10_wf_ast (na : Z) (twopl : bool) (A : file_ast) : bool := wf_ast na twopl A.
